@@ -264,7 +264,19 @@ func init() {
 				} else if d > 0 {
 					blinded = append(append([]byte{}, blinded...), make([]byte, d)...)
 				}
-				els, err := encrypted_leaseset.NewEncryptedLeaseSet(uint16(st), blinded, uint32(u64(m.Bytes("published"))), uint16(m.Int("expires")), uint16(m.Int("flags")), off, inner, signingKey)
+				var els *encrypted_leaseset.EncryptedLeaseSet
+				var err error
+				if m.Bool("viadest") {
+					// the twin constructor: signing type and blinded key are taken from a (blinded) Destination
+					var bd *destination.Destination
+					bd, err = literalDest(identityModel(st, 4, blinded, rng))
+					if err != nil || bd == nil {
+						return Res{"setup": false, "err": "blinded destination: " + errStr(err)}
+					}
+					els, err = encrypted_leaseset.NewEncryptedLeaseSetFromDestination(*bd, uint32(u64(m.Bytes("published"))), uint16(m.Int("expires")), uint16(m.Int("flags")), off, inner, signingKey)
+				} else {
+					els, err = encrypted_leaseset.NewEncryptedLeaseSet(uint16(st), blinded, uint32(u64(m.Bytes("published"))), uint16(m.Int("expires")), uint16(m.Int("flags")), off, inner, signingKey)
+				}
 				res["ok"], res["err"] = err == nil && els != nil, errStr(err)
 				if err == nil && els != nil {
 					verr := els.Validate()
